@@ -155,18 +155,17 @@ class WorkflowBuilder(WorkflowBase):
             else:
                 output_tasks = [predecessors]
         input_tasks = other.input_tasks
-        self._g = nx.compose(self._g, other._g)
         if len(input_tasks) == len(output_tasks):
-            for inp, outp in zip(input_tasks, output_tasks):
-                self._g.add_edge(outp, inp)
+            edges = [(outp, inp) for inp, outp in zip(input_tasks, output_tasks)]
         elif len(input_tasks) == 1:
-            for outp in output_tasks:
-                self._g.add_edge(outp, input_tasks[0])
+            edges = [(outp, input_tasks[0]) for outp in output_tasks]
         elif len(output_tasks) == 1:
-            for inp in input_tasks:
-                self._g.add_edge(output_tasks[0], inp)
+            edges = [(output_tasks[0], inp) for inp in input_tasks]
         else:
             raise ValueError('Having N:M connections between workflows is currently not supported')
+        self._g = nx.compose(self._g, other._g)
+        for outp, inp in edges:
+            self._g.add_edge(outp, inp)
 
     def __add__(self, other: Workflow):
         wb_new = WorkflowBuilder()
